@@ -118,13 +118,17 @@ def oracle(text, block):
     return None
 
 
-def oracle_file(text):
+def oracle_file(text, version=None):
+    """version: None = the default (MCNP 6.2, 128 columns); (5, 1, 60) = the 80-column regime"""
     import montepy
     p = mp.write_text("c12.i", text)
     with warnings.catch_warnings(record=True) as w:
         warnings.simplefilter("always")
         try:
-            montepy.read_input(p)
+            if version is None:
+                montepy.read_input(p)
+            else:
+                montepy.read_input(p, mcnp_version=tuple(version))
         except Exception as e:
             return {"exception": type(e).__name__, "message": str(e)[:400]}
     w = [x for x in w if not issubclass(x.category, DeprecationWarning)]
@@ -257,6 +261,14 @@ REFUTED = [
 ]
 
 
+# the texts of C12_text_rejected_refuted / C12_text_to_verdict (Properties/C12.v section 6b): tied to the real code
+TEXT_REJECTED = [("mode n u", "data"), ("mode n /", "data"), ("mode n c", "data"), ("e4 1 2.5m", "data"),
+                 ("e4 1 2m r", "data"), ("1 0 -1 imp:|=1", "cell")]
+TEXT_ACCEPTED = [("+f6:n (1 2) 3 T", "data"), ("m1 1001.80c 1 8016 1 elib=03e", "data"), ("sdef", "data"),
+                 ("1 0 (1:2)#3 fill=1 ( 1 2 3) imp:u,c=1", "cell"), ("1 so 1234.56e1 5.+3", None),
+                 ("*5 -9 GQ 1 2r 2i 4 2j -.5E-3", "surface")]
+
+
 def coq_list(classes):
     return "[" + "; ".join('"%s"' % c for c in classes) + "]"
 
@@ -279,6 +291,20 @@ def check_refuted(ctx):
             ctx.broken_obligations.append({"obligation": "real parser still rejects a refuted sentence", "detail":
                                            {"text": text, "parser": parser, "real": rv}})
         reqs.append("lr %s %s" % (parser, ",".join(G.hx(c) for c in classes)))
+    for text, block in TEXT_REJECTED:
+        if '"%s"' % text not in src:
+            ctx.broken_obligations.append({"obligation": "rejected text is stated in Properties/C12.v", "detail": text})
+        if oracle(text, block) is None:
+            ctx.broken_obligations.append({"obligation": "real code still rejects a text of C12_text_rejected_refuted", "detail": text})
+    for text, block in TEXT_ACCEPTED:
+        if '"%s"' % text not in src:
+            ctx.broken_obligations.append({"obligation": "accepted text is stated in Properties/C12.v", "detail": text})
+        if block is None:
+            # two numbers for a sphere at the origin: syntactically accepted, the constructor rightly refuses the count
+            if real_parse(text, "surface", "surface") != "A":
+                ctx.broken_obligations.append({"obligation": "real parser accepts a text of C12_text_to_verdict", "detail": text})
+        elif oracle(text, block) is not None:
+            ctx.broken_obligations.append({"obligation": "real code accepts a text of C12_text_to_verdict", "detail": [text, oracle(text, block)]})
     ans = vlib.model_ask("CoreGrammar", reqs)
     for (text, *_), a in zip(REFUTED, ans):
         if not a.startswith("R"):
@@ -377,7 +403,7 @@ def replay(ctx, path):
         case = json.load(fh)
     case = case.get("case", case)
     if case.get("kind") == "file":
-        bad = oracle_file(case["text"])
+        bad = oracle_file(case["text"], case.get("version"))
     elif "shape" in case:
         case["text"] = G.render(case["shape"], case.get("mask", "0"))
         bad = oracle(case["text"], case["block"])
@@ -441,13 +467,15 @@ def run(ctx):
     sentences += sw
     for i in range(n_problems):
         rng = random.Random(f"{ctx.seed}:C12:{i}")
-        S, plan, c1 = G.gen_problem(rng, wild=0.0 if i % 3 else 0.5, tame=i % 3 != 0)
+        width = 80 if i % 4 == 1 else 128
+        S, plan, c1 = G.gen_problem(rng, wild=0.0 if i % 3 else 0.5, tame=i % 3 != 0, width=width)
         cov.update(c1)
+        plan["width"] = width
         problems.append((i, S, plan))
         sentences += S
     dist = {"sentences": len(sentences), "by_block": Counter(), "by_parser": Counter(), "tokens": Counter(),
             "shape_ok": 0, "outside_shape_predicate": 0, "not_representable": 0, "lexer_compared": 0,
-            "automaton_compared": 0, "number_spelling_not_lex_safe": 0, "automaton_real_raised": 0, "model_lr": Counter(), "real_parser": Counter(),
+            "automaton_compared": 0, "number_spelling_not_lex_safe": 0, "lexer_model_compared": 0, "lexer_model_errors": 0, "automaton_real_raised": 0, "model_lr": Counter(), "real_parser": Counter(),
             "oracle_failures": Counter(), "feature_tags": Counter(), "masks": Counter()}
     reqs = []
     idx = []
@@ -520,6 +548,36 @@ def run(ctx):
                     lr_who.append((s, "lr_real_cls"))
     for (s, field), a in zip(lr_who, vlib.model_ask("CoreGrammar", lr_reqs)):
         s[field] = lr_letter(a)
+    # the lexers of the model (regular expressions of Gen/Lexer.v + the actions written out in CoreGrammar.v)
+    # against the real lexers, on every sentence, inside and outside the shape predicate
+    lex_reqs, lex_who = [], []
+    for s in sentences:
+        kind = {"cell": "C", "surface": "S", "data": "D"}[s["block"]]
+        lex_reqs.append("lex %s %s" % (kind, G.hx(s["text"])))
+        lex_who.append((s, False))
+        if s["block"] == "data":
+            lex_reqs.append("lex K %s" % G.hx(s["text"]))
+            lex_who.append((s, True))
+    lexm_bad = []
+    lex_answers = vlib.model_ask("CoreGrammar", lex_reqs)
+    for (s, cl), a in zip(lex_who, lex_answers):
+        real = real_tokens(s["text"], s["block"], classifier=cl)
+        dist["lexer_model_compared"] += 1
+        if a.startswith("ok"):
+            mt = [(unhx(x.split(".")[0]), unhx(x.split(".")[1])) for x in a.split(" ")[1:] if x]
+            okay = same_tokens(mt, real)
+        else:
+            mt = a
+            okay = isinstance(real, tuple)
+            dist["lexer_model_errors"] += 1
+        if not okay:
+            lexm_bad.append({"text": s["text"], "block": s["block"], "classifier_input": cl,
+                             "model": mt[:60] if isinstance(mt, list) else mt,
+                             "real": real if isinstance(real, tuple) else real[:60]})
+    if lexm_bad:
+        ctx.broken_obligations.append({"obligation": "lexer model: CoreGrammar.tokenize (generated regular expressions) = real lexer",
+                                       "detail": {"n": len(lexm_bad), "first": lexm_bad[0]}})
+    lex_answers_all = None
     for s in sentences:
         for rf, mf, what in (("real_parse", "lr_real", G.parser_of(s["shape"])), ("real_parse_cls", "lr_real_cls", "classifier")):
             if rf in s and mf in s:
@@ -541,13 +599,14 @@ def run(ctx):
                                        "detail": {"n": len(lr_bad), "first": lr_bad[0]}})
     # vm_compute cross-check of a sample of the model answers
     try:
-        nx, bad = vlib.vm_crosscheck("CoreGrammar", reqs, answers, sample=25 if quick else 120, seed=ctx.seed)
+        xr, xa = reqs + lex_reqs[::7], answers + lex_answers[::7]
+        nx, bad = vlib.vm_crosscheck("CoreGrammar", xr, xa, sample=40 if quick else 150, seed=ctx.seed)
     except RuntimeError as e:
         if "inconsistent assumptions" not in str(e):
             raise
         # another check rebuilt a shared Gen/*.vo between our build and this compilation: rebuild and retry once
         vlib.coq_make(["Properties/C12.vo", "Model/CoreGrammar.vo"])
-        nx, bad = vlib.vm_crosscheck("CoreGrammar", reqs, answers, sample=25 if quick else 120, seed=ctx.seed)
+        nx, bad = vlib.vm_crosscheck("CoreGrammar", xr, xa, sample=40 if quick else 150, seed=ctx.seed)
     if bad:
         ctx.broken_obligations.append({"obligation": "extraction cross-check CoreGrammar", "detail": bad[:2]})
     n_ref = check_refuted(ctx)
@@ -574,7 +633,8 @@ def run(ctx):
         if len(ctx.violations) >= MAXV:
             break
     # ---- 6. whole files
-    fd = {"files": 0, "crlf": 0, "failed": 0, "failed_with_failing_card": 0, "with_message": 0}
+    fd = {"files": 0, "crlf": 0, "failed": 0, "failed_with_failing_card": 0, "with_message": 0,
+          "regime_80_columns": 0, "longest_line": 0}
     for i, S, plan in problems:
         rng = random.Random(f"{ctx.seed}:C12:file:{i}")
         crlf = rng.random() < 0.3
@@ -583,8 +643,12 @@ def run(ctx):
         fd["files"] += 1
         fd["crlf"] += crlf
         fd["with_message"] += bool(msg)
+        longest = max(len(l.rstrip("\r")) for l in text.split("\n"))
+        fd["longest_line"] = max(fd["longest_line"], longest)
+        version = (5, 1, 60) if plan.get("width") == 80 and longest <= 80 else None
+        fd["regime_80_columns"] += version is not None
         ctx.count_case(("file", text), nontrivial=True)
-        bad = oracle_file(text)
+        bad = oracle_file(text, version)
         if bad is None:
             continue
         fd["failed"] += 1
@@ -601,12 +665,13 @@ def run(ctx):
             free = sh[0] in ("tally", "sdef", "text") or (
                 sh[0] == "data" and sh[2][1] not in ("mode", "imp", "vol", "u", "lat", "fill", "tr"))
             if free:
-                b2 = oracle_file(G.problem_text(cand, None, crlf=crlf))
+                b2 = oracle_file(G.problem_text(cand, None, crlf=crlf), version)
                 if b2 is not None and b2["exception"] == bad["exception"]:
                     cur = cand
             j -= 1
         text2 = G.problem_text(cur, None, crlf=crlf)
-        ctx.fail({"kind": "file", "text": text2, "failure": oracle_file(text2), "crlf": crlf, "original_text": text,
+        ctx.fail({"kind": "file", "text": text2, "failure": oracle_file(text2, version), "crlf": crlf, "original_text": text,
+                  "version": version,
                   "cards": [{"block": s["block"], "shape": s["shape"], "mask": s["mask"]} for s in cur],
                   "tags": sorted(set(t for s in cur for t in s["tags"]))})
         if len(ctx.violations) >= MAXV:
@@ -619,7 +684,7 @@ def run(ctx):
                     c = json.load(fh)
                 c = c.get("case", c)
                 if c.get("kind") == "file":
-                    f["_reproduced"] = oracle_file(c["text"]) is not None
+                    f["_reproduced"] = oracle_file(c["text"], c.get("version")) is not None
                 else:
                     f["_reproduced"] = oracle(G.render(c["shape"], c.get("mask", "0")) if "shape" in c else c["text"], c["block"]) is not None
             except Exception:
